@@ -12,7 +12,9 @@ import (
 	"fmt"
 	"hash/fnv"
 	"math/big"
+	"runtime"
 	"sort"
+	"strings"
 	"time"
 
 	"github.com/ethereum/go-ethereum/common"
@@ -242,7 +244,53 @@ func (d *driver) settle() {
 	if _, _, st := d.v.IdleCounts(); st == 0 && d.running {
 		desync("storage idle pool exhausted")
 	}
+	d.quiesce()
 	d.observeTasks()
+}
+
+// quiesce waits until the run loop is parked in its select with no wake-up pending (or Sync
+// has returned): only then may run-loop owned fields (the task list) be read.  The goroutine
+// state is taken from runtime.Stack: the Sync goroutine must be in state "select" with Sync
+// itself as the innermost frame.
+func (d *driver) quiesce() {
+	buf := make([]byte, 1<<16)
+	for spins := 0; ; spins++ {
+		select {
+		case <-d.done:
+			d.running = false
+			return
+		default:
+		}
+		if d.v.UpdatePending() == 0 {
+			n := runtime.Stack(buf, true)
+			for n == len(buf) {
+				buf = make([]byte, 2*len(buf))
+				n = runtime.Stack(buf, true)
+			}
+			if syncParked(string(buf[:n])) {
+				return
+			}
+		}
+		if spins > 5000000 {
+			desync("run loop never parks")
+		}
+		runtime.Gosched()
+	}
+}
+
+func syncParked(stacks string) bool {
+	const fn = "github.com/ethereum/go-ethereum/eth/protocols/snap.(*syncer).Sync("
+	for _, blk := range strings.Split(stacks, "\n\n") {
+		if !strings.Contains(blk, fn) {
+			continue
+		}
+		lines := strings.Split(blk, "\n")
+		if len(lines) < 2 {
+			return false
+		}
+		return strings.Contains(lines[0], "[select") && strings.HasPrefix(lines[1], fn)
+	}
+	return false
 }
 
 var two64 = new(big.Int).Lsh(big.NewInt(1), 64)
